@@ -127,6 +127,19 @@ def cel_src(e) -> str:
         return "[" + ", ".join(cel_src(x) for x in e[1]) + "]"
     if k == "M":
         return "{" + ", ".join(f"{json.dumps(kk)}: {cel_src(x)}" for kk, x in e[1]) + "}"
+    if k == "W":
+        # the SAME value as e[2], written so that the reference sits only inside a macro body / an index
+        # expression / a map literal / a function-call argument (what the dependency extractor has to see through)
+        inner = cel_src(e[2])
+        return {"mac": f"[0].map(i, {inner})[0]", "idx": f"[{inner}][0]", "fld": '{"k": ' + inner + "}.k",
+                "fl": f"flatten([[{inner}]])[0]", "macf": f"[{inner}].filter(i, true)[0]"}[e[1]]
+    if k == "H":
+        ref = _dotted("steps." + e[1], e[2])
+        return f"[0].map(i, has({ref}) ? {ref} : {cel_src(e[3])})[0]"
+    if k == "F":
+        return f"flatten({cel_src(e[1])})"
+    if k == "U":
+        return f"[{e[1]}({', '.join(cel_src(a) for a in e[2])}), {cel_src(e[3])}][1]"
     raise ValueError(k)
 
 
@@ -179,6 +192,22 @@ def py_eval(e, env):
         return [py_eval(x, env) for x in e[1]]
     if k == "M":
         return {kk: py_eval(x, env) for kk, x in e[1]}
+    if k == "W":
+        return py_eval(e[2], env)
+    if k == "H":
+        try:
+            return py_eval(["S", e[1], e[2]], env)
+        except EvalError:
+            return py_eval(e[3], env)
+    if k == "F":
+        v = py_eval(e[1], env)
+        if not isinstance(v, list) or not all(isinstance(x, list) for x in v):
+            raise EvalError("flatten")
+        return [y for x in v for y in x]
+    if k == "U":
+        for a in e[2]:
+            py_eval(a, env)
+        return py_eval(e[3], env)
     raise ValueError(k)
 
 
@@ -190,6 +219,14 @@ def expr_refs(e) -> set:
         return set().union(*[expr_refs(x) for x in e[1]]) if e[1] else set()
     if k == "M":
         return set().union(*[expr_refs(x) for _, x in e[1]]) if e[1] else set()
+    if k == "W":
+        return expr_refs(e[2])
+    if k == "H":
+        return {e[1]} | expr_refs(e[3])
+    if k == "F":
+        return expr_refs(e[1])
+    if k == "U":
+        return set().union(expr_refs(e[3]), *[expr_refs(a) for a in e[2]])
     return set()
 
 
@@ -697,6 +734,14 @@ def c_expr(e):
         return "(EList " + clist(e[1], c_expr) + ")"
     if k == "M":
         return "(EMap " + c_emap(e[1]) + ")"
+    if k == "W":
+        return c_expr(e[2])
+    if k == "H":
+        return f"(EHas {cstr(e[1])} {c_path(e[2])} {c_expr(e[3])})"
+    if k == "F":
+        return f"(EFlatten {c_expr(e[1])})"
+    if k == "U":
+        return f"(EUse {clist(e[2], c_expr)} {c_expr(e[3])})"
     raise ValueError(k)
 
 
@@ -844,7 +889,7 @@ def paths_into(v, pre=()):
 def rand_trigger(rng):
     return {"spec": {"y": rng.choice([5, 0, "hello"]), "flag": rng.random() < 0.5, "off": False,
                      "lst": [rand_scalar(rng) for _ in range(rng.choice([0, 1, 2, 3]))],
-                     "sel": rng.choice(CASES + ["zzz"])},
+                     "sel": rng.choice(CASES + ["zzz"]), "lol": [[1, 2], ["x"]]},
             "metadata": {"name": "trigger-1"}}
 
 
@@ -886,9 +931,35 @@ class Gen:
             cands = [c for c in cands if isinstance(c[1], str)]
         if not cands:
             return None
-        e = copy.deepcopy(rng.choice(cands)[0])
+        e, v = copy.deepcopy(rng.choice(cands))
         if rng.random() < 0.06 * self.err:
             e[-1] = e[-1] + ["nope"]        # a path that does not exist: evaluation error
+            return e
+        return self.dress(e, v, cands)
+
+    def dress(self, e, v, cands):
+        """sometimes write the reference so that it sits only inside a macro body / index expression / literal /
+        function-call argument, behind has(), or next to a koreo CEL helper applied to the referenced value"""
+        rng = self.rng
+        r = rng.random()
+        if r < 0.22:
+            return ["W", rng.choice(["mac", "idx", "fld", "fl", "macf"]), e]
+        if r < 0.30 and e[0] == "S":
+            return ["H", e[1], e[2], C(rng.choice(["dflt", 0, None]))]
+        if r < 0.36 and isinstance(v, list) and v and all(isinstance(x, list) for x in v):
+            return ["F", e]
+        if r < 0.52:
+            # a helper applied to (a part of) some referenced value; what is kept is this or another reference
+            he, hv = copy.deepcopy(rng.choice(cands))
+            if isinstance(hv, dict):
+                call = rng.choice([("overlay", [he, C({"zz": 1})]), ("to_json", [he])])
+            elif isinstance(hv, str):
+                call = rng.choice([("lower", [he]), ("split", [he, C("-")])])
+            elif isinstance(hv, list) and all(isinstance(x, list) for x in hv):
+                call = ("flatten", [he])
+            else:
+                call = ("to_json", [he])
+            return ["U", call[0], call[1], e]
         return e
 
     def target(self, allow_sub=True, allow_res=True):
@@ -928,7 +999,9 @@ class Gen:
             cases = rng.sample(CASES, rng.choice([1, 2, 3]))
             has_default = rng.random() < 0.5
             di = rng.randrange(len(cases)) if has_default else -1
-            entries = [[c, self.target(), i == di] for i, c in enumerate(cases)]
+            distinct = [["fn", "echo"], ["fn", "bycls"], ["fn", "null"]]
+            rng.shuffle(distinct)          # different functions per case: the trace shows which one ran
+            entries = [[c, (distinct[i] if rng.random() < 0.6 else self.target()), i == di] for i, c in enumerate(cases)]
             r = rng.random()
             if r < 0.6:
                 on = ["I", ["sel"]]
@@ -956,8 +1029,18 @@ class Gen:
         fe_key = None
         if rng.random() < 0.22:
             r = rng.random()
-            n = rng.choice([1, 2, 3, 4])
-            if "res" in tnames and not self.in_sub:
+            n = rng.choice([1, 2, 3, 4, 2, 3, rng.randrange(11, 16)])      # sometimes > 10 items (index 10 vs 2)
+            if step["logic"][0] == "switch" and "res" not in tnames and not need_keys and r < 0.7:
+                # refSwitch x forEach: switchOn depends on the ITEM, items select different cases
+                sels = [rng.choice(CASES + CASES + ["zzz"]) for _ in range(n)]
+                if rng.random() < 0.5:
+                    fe_key, items = "sel", sels
+                    step["logic"][1] = ["I", ["sel"]]
+                else:
+                    fe_key, items = "item", [{"kind": c, "n": i} for i, c in enumerate(sels)]
+                    step["logic"][1] = ["I", ["item", "kind"]]
+                inputs[:] = [kv for kv in inputs if kv[0] != fe_key]
+            elif "res" in tnames and not self.in_sub:
                 fe_key, items = "name", [f"obj-{label}-{i}" for i in range(n)]
             elif "res" in tnames:
                 fe_key = None
@@ -969,11 +1052,12 @@ class Gen:
                 words = CLS_WORDS if heavy else ["ok", "ok", "ok", "skip", "depskip"]
                 fe_key, items = "cls", [rng.choice(words) for _ in range(n)]
             elif "bycls" not in tnames or True:
-                fe_key, items = "item", [rand_const(rng, 1) for _ in range(n)]
+                fe_key, items = "item", ([rand_const(rng, 1) for _ in range(n)] if rng.random() < 0.5 else
+                                         [f"it{i}" for i in range(n)])
             if fe_key is not None:
                 r2 = rng.random()
                 src = C(items)
-                if fe_key == "item" and r2 < 0.3:
+                if fe_key == "item" and r2 < 0.3 and step["logic"][0] != "switch":
                     src = self.ref_expr(done, want="list") or src
                 elif r2 < 0.36:
                     src = C([])
@@ -1016,6 +1100,8 @@ class Gen:
                 put(rng.choice(KEYS), e)
         for _ in range(rng.choice([0, 0, 1, 2])):
             put(rng.choice(KEYS), C(rand_const(rng)))
+        if rng.random() < 0.15:
+            put("lol", C([[rand_scalar(rng) for _ in range(rng.choice([1, 2]))] for _ in range(rng.choice([1, 2, 3]))]))
         if rng.random() < 0.03 * self.err:
             put(rng.choice(KEYS), ["E"])
         if rng.random() < 0.08:
